@@ -122,7 +122,7 @@ DerEnc(env, T, v, impl) ==
          LET tg == IF impl = NoTag THEN Tag(T.cl, T.num) ELSE impl
          IN IF T.mode = "E" THEN TLV(tg, TRUE, DerEnc(env, T.t, v, NoTag))
             ELSE DerEnc(env, T.t, v, tg)
-    [] T.k = "REF" -> DerEnc(env, env[T.n], v, impl)
+    [] IsRef(T) -> DerEnc(env, Follow(env, T), v, impl)
     [] T.k = "CHOICE" -> DerEnc(env, CompByName(T, AltOf(v)).t, AltVal(v), NoTag)
     [] T.k = "SEQUENCE" -> TLV(TagOr(impl, T), TRUE, ConcatAll(CompEncs(env, T, v)))
     [] T.k = "SET" ->
